@@ -1576,6 +1576,20 @@ fn check_rtp_p2w(sc: &Value, acc: &mut Acc) -> Verdict {
             json!({"pkt": l, "marshal": hex_cap(&bytes, 64), "marshal_into": hex_cap(&via_into, 64)}),
         );
     }
+    // ... also when the buffer is reused, as the bridge fast path does ("reusing its capacity
+    // across calls"): whatever a previous, longer or shorter, packet left in it
+    for (what, fill) in [("longer", bytes.len() + 37), ("shorter", bytes.len() / 2), ("much_longer", bytes.len() + 1500)] {
+        let mut reused = vec![0xEEu8; fill];
+        if guard(|| p.marshal_into(&mut reused)).is_err() || reused != bytes {
+            return viol(
+                format!("rtp:marshal_into:reused_buffer_{what}"),
+                "marshal_into into a buffer that held another packet does not produce the packet's bytes".into(),
+                json!({"pkt": l, "marshal_len": bytes.len(), "marshal_into_len": reused.len(), "buffer_held_bytes": fill,
+                       "tail": hex_cap(&reused[bytes.len().min(reused.len())..], 32)}),
+            );
+        }
+    }
+    acc.c("rtp_marshal_into_reused_buffer_checks");
     for (name, parsed) in [
         (
             "parse",
